@@ -7,6 +7,9 @@ import (
 	"encoding/json"
 	"errors"
 	"fmt"
+	"os"
+	"path/filepath"
+	"runtime"
 	"sort"
 	"strconv"
 	"strings"
@@ -21,32 +24,35 @@ import (
 // with the real scriggo and logs {builds, run, printed}. It judges nothing and computes no
 // expected value: the checksum every program prints is recomputed by Trace_Limits.tla.
 //
-// Case {id, rid, res, mode, n, hint, lo, hi, base, step, mod, kind, w, m}:
+// Case {id, rid, res, cap, points, locate, span, lo, hi, base, step, mod, kind, w, m}: one per resource.
 //
-//	mode "point"  : one program with n units.
-//	mode "locate" : find the actual threshold (largest n that builds / smallest n refused) by
-//	                galloping away from hint and bisecting, then sweep +-3 around it; EVERY probe is
-//	                logged as an observation (id = rid*100000+n) and judged.
+//	points : the n of the sweep plan; one program each.
+//	locate : also find the actual threshold (largest n that builds / smallest n refused) inside
+//	         [lo, hi] by galloping away from cap and bisecting, then sweep span around it.
+//
+// EVERY program built is logged as an observation (id = rid*100000+n) and judged.
 //
 // Value of unit i (1-based): v(i) = base + step*(i % mod). Each program folds the values read back
 // through the resource under test into h = (h*w + v) % m (kind "hash", left fold from h=0) or
-// E_i = (v_i + w*E_{i+1}) % m (kind "nest", E_{n+1}=0) and prints the result.
+// E_i = (v_i + w*E_{i+1}) % m (kind "nest", E_{n+1}=0), or shows v(n) only (kind "single"), and
+// prints the result.
 
 type lcase struct {
-	ID   int    `json:"id"`
-	Rid  int    `json:"rid"`
-	Res  string `json:"res"`
-	Mode string `json:"mode"`
-	N    int    `json:"n"`
-	Hint int    `json:"hint"`
-	Lo   int    `json:"lo"`
-	Hi   int    `json:"hi"`
-	Base int    `json:"base"`
-	Step int    `json:"step"`
-	Mod  int    `json:"mod"`
-	Kind string `json:"kind"`
-	W    int    `json:"w"`
-	M    int    `json:"m"`
+	ID     int    `json:"id"`
+	Rid    int    `json:"rid"`
+	Res    string `json:"res"`
+	Cap    int    `json:"cap"`
+	Points []int  `json:"points"`
+	Locate bool   `json:"locate"`
+	Span   int    `json:"span"`
+	Lo     int    `json:"lo"`
+	Hi     int    `json:"hi"`
+	Base   int    `json:"base"`
+	Step   int    `json:"step"`
+	Mod    int    `json:"mod"`
+	Kind   string `json:"kind"`
+	W      int    `json:"w"`
+	M      int    `json:"m"`
 }
 
 func (c *lcase) v(i int) int { return c.Base + c.Step*(i%c.Mod) }
@@ -221,7 +227,8 @@ func gen(c *lcase, n int) (*prog, error) {
 		}
 		w("\tprint(h)\n}\n")
 		p.opts.Packages = native.Packages{"p": native.Package{Name: "p", Declarations: decl}}
-	case "fields":
+	case "fieldwrites":
+		// n distinct field paths written and read in ONE function
 		head()
 		w("type S struct {\n")
 		for i := 1; i <= n; i++ {
@@ -236,31 +243,69 @@ func gen(c *lcase, n int) (*prog, error) {
 			w("\t{ %s }\n", c.fold(fmt.Sprintf("x.F%d", i)))
 		}
 		w("\tprint(h)\n}\n")
+	case "fieldreads":
+		// n distinct field paths read in one function; the writes are spread over several functions
+		head()
+		const chunk = 100
+		w("type S struct {\n")
+		for i := 1; i <= n; i++ {
+			w("\tF%d int\n", i)
+		}
+		w("}\n")
+		nf := 0
+		for lo := 1; lo <= n; lo += chunk {
+			nf++
+			w("\nfunc set%d(x *S) {\n", nf)
+			for i := lo; i < lo+chunk && i <= n; i++ {
+				w("\t{ x.F%d = %d }\n", i, c.v(i))
+			}
+			w("}\n")
+		}
+		w("\nfunc main() {\n\tvar x S\n")
+		for k := 1; k <= nf; k++ {
+			w("\tset%d(&x)\n", k)
+		}
+		w("\th := 0\n")
+		for i := 1; i <= n; i++ {
+			w("\t{ %s }\n", c.fold(fmt.Sprintf("x.F%d", i)))
+		}
+		w("\tprint(h)\n}\n")
 	case "selectcases":
 		// one ready case (the last) among n; the others wait on a nil channel
 		head()
-		w("func main() {\n\tvar d chan int\n\tc := make(chan int, 1)\n\tc <- %d\n\th := 0\n\tselect {\n", c.v(n))
+		w("func main() {\n\tvar d chan int\n\t_ = d\n\tc := make(chan int, 1)\n\tc <- %d\n\th := 0\n\tselect {\n", c.v(n))
 		for i := 1; i < n; i++ {
-			w("\tcase <-d:\n")
+			w("\tcase <-d:\n\t\th = 7\n")
 		}
 		w("\tcase x := <-c:\n\t\t%s\n\t}\n\tprint(h)\n}\n", c.fold("x"))
 	case "globals":
-		// n package-level variables, set from several functions, read back in several functions
+		// n package-level variables of the four register kinds in turn, written and read by
+		// several functions
 		head()
-		const chunk = 2000
+		const chunk = 100
 		for i := 1; i <= n; i++ {
-			w("var g%d int\n", i)
+			w("var g%d %s\n", i, [4]string{"int", "float64", "string", "[]int"}[i%4])
 		}
 		nf := 0
 		for lo := 1; lo <= n; lo += chunk {
 			nf++
 			w("\nfunc set%d() {\n", nf)
 			for i := lo; i < lo+chunk && i <= n; i++ {
-				w("\t{ g%d = %d }\n", i, c.v(i))
+				switch i % 4 {
+				case 0:
+					w("\t{ g%d = %d }\n", i, c.v(i))
+				case 1:
+					w("\t{ g%d = %d.5 }\n", i, c.v(i))
+				case 2:
+					w("\t{ g%d = %q }\n", i, strings.Repeat("x", c.v(i)))
+				case 3:
+					w("\t{ g%d = []int{%d} }\n", i, c.v(i))
+				}
 			}
 			w("}\n\nfunc get%d(h int) int {\n", nf)
 			for i := lo; i < lo+chunk && i <= n; i++ {
-				w("\t{ %s }\n", c.fold(fmt.Sprintf("g%d", i)))
+				x := fmt.Sprintf([4]string{"g%d", "int(g%d)", "len(g%d)", "g%d[0]"}[i%4], i)
+				w("\t{ %s }\n", c.fold(x))
 			}
 			w("\treturn h\n}\n")
 		}
@@ -392,28 +437,41 @@ func exec(p *prog) (o outcome) {
 
 func record(c *lcase, n int, phase string, o outcome) map[string]any {
 	return map[string]any{
-		"id": c.Rid*100000 + n, "rid": c.Rid, "res": c.Res, "n": n, "phase": phase,
+		"id": c.Rid*100000 + n, "rid": c.Rid, "res": c.Res, "cap": c.Cap, "n": n, "phase": phase,
 		"base": c.Base, "step": c.Step, "mod": c.Mod, "kind": c.Kind, "w": c.W, "m": c.M,
 		"builds": o.builds, "run": o.run, "printed": o.printed, "msg": o.msg, "raw": o.raw,
 	}
 }
 
+var (
+	sem    = make(chan struct{}, runtime.NumCPU())
+	srcDir = os.Getenv("C20_SRC_DIR") // when set, the source of every program is written there
+)
+
 func probe(c *lcase, n int) outcome {
+	sem <- struct{}{}
+	defer func() { <-sem }()
 	p, err := gen(c, n)
 	if err != nil {
 		panic(err)
 	}
+	if srcDir != "" {
+		for name, data := range p.files {
+			_ = os.WriteFile(filepath.Join(srcDir, fmt.Sprintf("%d_%s", c.Rid*100000+n, name)), data, 0o644)
+		}
+	}
 	return exec(p)
 }
 
-// locate finds a boundary between "builds" and "refused" inside [lo, hi] starting from hint, and
-// sweeps +-3 around it. It assumes nothing about where the boundary is; when there is none in the
-// range (every n builds, or none), the sweep is simply around the end reached.
-func locate(c *lcase) []any {
+// sweep runs the planned points, then (if asked) locates a boundary between "builds" and "refused"
+// inside [lo, hi] starting from cap and sweeps span around it. It assumes nothing about where the
+// boundary is; when there is none in the range (every n builds, or none), the final sweep is simply
+// around the end reached.
+func sweep(c *lcase) []any {
 	memo := map[int]outcome{}
-	var order []int
+	phase := map[int]string{}
 	var mu sync.Mutex
-	get := func(n int) outcome {
+	get := func(n int, ph string) outcome {
 		mu.Lock()
 		o, ok := memo[n]
 		mu.Unlock()
@@ -424,73 +482,85 @@ func locate(c *lcase) []any {
 		mu.Lock()
 		if _, dup := memo[n]; !dup {
 			memo[n] = o
-			order = append(order, n)
+			phase[n] = ph
 		}
 		mu.Unlock()
 		return o
 	}
-	clamp := func(n int) int {
-		if n < c.Lo {
-			return c.Lo
+	par := func(ns []int, ph string) {
+		var wg sync.WaitGroup
+		for _, n := range ns {
+			wg.Add(1)
+			go func(n int) { defer wg.Done(); get(n, ph) }(n)
 		}
-		if n > c.Hi {
-			return c.Hi
-		}
-		return n
+		wg.Wait()
 	}
-	okAt := func(n int) bool { return get(n).builds == "ok" }
-	good, bad := -1, -1 // good builds, bad does not, good < bad
-	start := clamp(c.Hint)
-	if okAt(start) {
-		good = start
-		for d := 1; good < c.Hi; d *= 2 {
-			n := clamp(start + d)
-			if okAt(n) {
-				good = n
-			} else {
+	par(c.Points, "point")
+	if c.Locate {
+		clamp := func(n int) int {
+			if n < c.Lo {
+				return c.Lo
+			}
+			if n > c.Hi {
+				return c.Hi
+			}
+			return n
+		}
+		okAt := func(n int) bool { return get(n, "locate").builds == "ok" }
+		good, bad := -1, -1 // good builds, bad does not, good < bad
+		start := clamp(c.Cap)
+		if okAt(start) {
+			good = start
+			for d := 1; good < c.Hi; d *= 2 {
+				n := clamp(start + d)
+				if okAt(n) {
+					good = n
+				} else {
+					bad = n
+					break
+				}
+			}
+		} else {
+			bad = start
+			for d := 1; bad > c.Lo; d *= 2 {
+				n := clamp(start - d)
+				if okAt(n) {
+					good = n
+					break
+				}
 				bad = n
-				break
 			}
 		}
-	} else {
-		bad = start
-		for d := 1; bad > c.Lo; d *= 2 {
-			n := clamp(start - d)
-			if okAt(n) {
-				good = n
-				break
-			} else {
-				bad = n
+		if good >= 0 && bad >= 0 {
+			for bad-good > 1 {
+				mid := (good + bad) / 2
+				if okAt(mid) {
+					good = mid
+				} else {
+					bad = mid
+				}
 			}
 		}
-	}
-	if good >= 0 && bad >= 0 {
-		for bad-good > 1 {
-			mid := (good + bad) / 2
-			if okAt(mid) {
-				good = mid
-			} else {
-				bad = mid
+		centre := good
+		if centre < 0 {
+			centre = bad
+		}
+		var ns []int
+		for n := centre - c.Span + 1; n <= centre+c.Span; n++ {
+			if n >= c.Lo && n <= c.Hi {
+				ns = append(ns, n)
 			}
 		}
+		par(ns, "around")
 	}
-	centre := good
-	if centre < 0 {
-		centre = bad
+	var order []int
+	for n := range memo {
+		order = append(order, n)
 	}
-	var wg sync.WaitGroup
-	for n := centre - 3; n <= centre+4; n++ {
-		if n < c.Lo || n > c.Hi {
-			continue
-		}
-		wg.Add(1)
-		go func(n int) { defer wg.Done(); get(n) }(n)
-	}
-	wg.Wait()
 	sort.Ints(order)
 	var out []any
 	for _, n := range order {
-		out = append(out, record(c, n, "locate", memo[n]))
+		out = append(out, record(c, n, phase[n], memo[n]))
 	}
 	return out
 }
@@ -503,10 +573,7 @@ func main() {
 			if c.Mod <= 0 {
 				c.Mod = 1 << 30
 			}
-			if c.Mode == "locate" {
-				return locate(&c)
-			}
-			return []any{record(&c, c.N, "point", probe(&c, c.N))}
+			return sweep(&c)
 		},
 	})
 }
